@@ -99,7 +99,8 @@ class Job:
         self.traces = 0; self.samples = []; self.mismatches = []; self.exhaustive = False
         self.wall = 0.0; self.note = ""; self.cmd = ""
 
-def toy_replay(binpath, machine, module, cfg, mode, harness_cfg=None, workers=4, timeout=1500, env_extra=None, label=None, emits_all=True):
+def toy_replay(binpath, machine, module, cfg, mode, harness_cfg=None, workers=4, timeout=1500, env_extra=None, label=None, emits_all=True, threads=None):
+    """threads: list of rayon pool sizes; the emitted transitions are replayed once per size (parallel build)."""
     """Conformance A: explore the toy model exhaustively with TLC, emitting every transition;
     replay all of them on the real code."""
     j = Job(label or "A:%s:%s:%s:%s" % (machine, cfg, mode, harness_cfg or cfg))
@@ -119,26 +120,28 @@ def toy_replay(binpath, machine, module, cfg, mode, harness_cfg=None, workers=4,
             raise ToolError("%s: emitted %d lines but TLC generated %d transitions" % (j.name, nlines, j.transitions))
         nemit = nlines
         intent = tmp + "/intent.json"
-        with open(emit) as f:
-            try:
-                r = subprocess.run([binpath, "replay", machine, "--cfg", harness_cfg or cfg], stdin=f, capture_output=True, text=True,
-                                   timeout=timeout, env=dict(os.environ, VH_INTENT=intent))
-            except subprocess.TimeoutExpired:
-                r = None
-        if r is None or r.returncode != 0:
-            last = open(intent).read() if os.path.exists(intent) else ""
-            j.mismatches.append({"kind": "transition", "machine": machine, "cfg": harness_cfg or cfg,
-                                 "error": "harness %s while replaying" % ("hung (timeout)" if r is None else "died rc=%d: %s" % (r.returncode, r.stderr[-500:])),
-                                 "transition": json.loads(last) if last.strip() else None})
-        else:
-            rep = json.loads(r.stdout.strip().split("\n")[-1])
-            if rep["transitions"] != nemit:
-                raise ToolError("%s: harness saw %d transitions, TLC emitted %d" % (j.name, rep["transitions"], nemit))
-            j.evaluations = rep["evaluations"]; j.nontrivial = rep["distinct_nontrivial"]
-            j.samples = rep["samples"][:2]
-            for m in rep["mismatches"]:
-                m.update({"kind": "transition", "machine": machine, "cfg": harness_cfg or cfg})
-                j.mismatches.append(m)
+        for th in (threads or [None]):
+            extra = ["--threads", str(th)] if th else []
+            with open(emit) as f:
+                try:
+                    r = subprocess.run([binpath, "replay", machine, "--cfg", harness_cfg or cfg] + extra, stdin=f, capture_output=True, text=True,
+                                       timeout=timeout, env=dict(os.environ, VH_INTENT=intent))
+                except subprocess.TimeoutExpired:
+                    r = None
+            if r is None or r.returncode != 0:
+                last = open(intent).read() if os.path.exists(intent) else ""
+                j.mismatches.append({"kind": "transition", "machine": machine, "cfg": harness_cfg or cfg, "threads": th,
+                                     "error": "harness %s while replaying" % ("hung (timeout)" if r is None else "died rc=%d: %s" % (r.returncode, r.stderr[-500:])),
+                                     "transition": json.loads(last) if last.strip() else None})
+            else:
+                rep = json.loads(r.stdout.strip().split("\n")[-1])
+                if rep["transitions"] != nemit:
+                    raise ToolError("%s: harness saw %d transitions, TLC emitted %d" % (j.name, rep["transitions"], nemit))
+                j.evaluations += rep["evaluations"]; j.nontrivial = max(j.nontrivial, rep["distinct_nontrivial"])
+                j.samples = rep["samples"][:2]
+                for m in rep["mismatches"]:
+                    m.update({"kind": "transition", "machine": machine, "cfg": harness_cfg or cfg, "threads": th})
+                    j.mismatches.append(m)
         j.exhaustive = True
     finally:
         shutil.rmtree(tmp, ignore_errors=True)
@@ -151,14 +154,14 @@ DONE_RE = re.compile(r'^<<"TRACE-DONE", "(.*)">>$')
 def unescape(s):
     return s.replace('\\"', '"').replace("\\\\", "\\")
 
-def trace_validate(binpath, machine, module, cfg, seed, n, timeout=900, rec_args=(), label=None, keep=None):
+def trace_validate(binpath, machine, module, cfg, seed, n, timeout=900, rec_args=(), label=None, keep=None, threads=None):
     """Conformance B: record a seeded program on the real code, validate the trace with TLC."""
     j = Job(label or "B:%s:%s:seed%d:n%d" % (machine, cfg, seed, n))
     t0 = time.time()
     tmp = tempfile.mkdtemp(prefix="vfB_")
     try:
         trace = tmp + "/trace.ndjson"; intent = tmp + "/intent.json"
-        rcmd = [binpath, "record", machine, "--cfg", cfg, "--seed", str(seed), "--n", str(n), "--out", trace] + list(rec_args)
+        rcmd = [binpath, "record", machine, "--cfg", cfg, "--seed", str(seed), "--n", str(n), "--out", trace] + list(rec_args) + (["--threads", str(threads)] if threads else [])
         j.cmd = " ".join(rcmd[1:]) + " ; TRACE=.. tlcrun.sh spec/trace %s -workers 1" % module
         try:
             r = subprocess.run(rcmd, capture_output=True, text=True, timeout=timeout, env=dict(os.environ, VH_INTENT=intent))
